@@ -1,6 +1,6 @@
 #!/usr/bin/env python3
 """Turn observations of tools/rig.py (JSON) into case lines (decimal tokens) for a property's model entry point."""
-import socket, struct
+import socket, struct, ipaddress
 
 
 def ip4(s):
@@ -11,8 +11,161 @@ def mac(hexs):
     return " ".join(str(b) for b in bytes.fromhex(hexs))
 
 
+# ---- C17: the abstract RA configuration of tools/rig.py in the token grammar of harness/src/bin/c17.rs
+def a16(a):
+    return list(ipaddress.IPv6Address(a).packed)
+
+
+def dur(secs):
+    return [secs >> 32, secs & 0xffffffff, 0]
+
+
+def bstr(b):
+    if isinstance(b, str):
+        b = b.encode()
+    return [len(b)] + list(b)
+
+
+def tri(v, f):
+    if v[0] == "absent":
+        return [0]
+    if v[0] == "null":
+        return [1]
+    return [2] + f(v[1])
+
+
+def ra_top_tokens(top):
+    t = [len(top["dns_servers"])]
+    for a in top["dns_servers"]:
+        ip = ipaddress.ip_address(a)
+        t += [ip.version] + list(ip.packed)
+    t += [len(top["dns_search"])]
+    for d in top["dns_search"]:
+        t += bstr(d)
+    t += ([1] + bstr(top["captive"])) if top.get("captive") is not None else [0]
+    return t
+
+
+def ra_intf_tokens(c):
+    t = [c["hop"], c["m"], c["o"]] + tri(c["lifetime"], dur) + dur(c["reachable"]) + dur(c["retrans"])
+    t += [len(c["prefixes"])]
+    for p in c["prefixes"]:
+        t += a16(p["addr"]) + [p["len"], p["onlink"], p["auto"]] + dur(p["valid"]) + dur(p["preferred"])
+    t += tri(c["rdnss_lt"], dur) + tri(c["rdnss"], lambda v: [len(v)] + [x for a in v for x in a16(a)])
+    t += tri(c["dnssl_lt"], dur) + tri(c["dnssl"], lambda v: [len(v)] + [x for d in v for x in bstr(d)])
+    t += tri(c["cp"], bstr)
+    if c["pref64"]:
+        t += [1] + dur(c["pref64"]["lifetime"]) + a16(c["pref64"]["prefix"]) + [c["pref64"]["len"]]
+    else:
+        t += [0]
+    return t
+
+
+def best_self6(addrs):
+    """erbium.conf(5): $self6 is "the local interface address"; radv/mod.rs documents the preference
+    unique-local > global > link-local (written here independently of ScopeSorter)"""
+    def rank(a):
+        ip = ipaddress.IPv6Address(a)
+        if ip in ipaddress.IPv6Network("fc00::/7"):
+            return 3
+        if ip in ipaddress.IPv6Network("fe80::/64"):
+            return 1
+        if ip.is_multicast or ip.is_loopback or ip.is_unspecified:
+            return 0
+        return 2
+    return max(addrs, key=lambda a: (rank(a), int(ipaddress.IPv6Address(a))))
+
+
+def ra_env_tokens(plan, itf):
+    c = itf["cfg"]
+    t = [1] + list(bytes.fromhex(itf["mac"]))
+    if c["mtu"][0] == "val":
+        t += [1, c["mtu"][1]]
+    elif c["mtu"][0] == "null":
+        t += [0]
+    else:
+        t += [1, itf["mtu_seen"]]                     # the MTU of the interface
+    t += a16(best_self6(itf["all_addrs"]))
+    # erbium.conf(5) lifetime: 0 s without a default route or when it points back out of this interface,
+    # else AdvDefaultLifetime (RFC 4861 6.2.1: 3 * MaxRtrAdvInterval = 1800 s)
+    if c["lifetime"][0] == "absent" and plan.get("default_route_dev") and plan["default_route_dev"] != itf["name"]:
+        t += dur(1800)
+    else:
+        t += dur(0)
+    return t
+
+
+def ra_cases(ra):
+    out = []
+    plan = ra["plan"]
+    by_peer = {i["peer"]: i for i in plan["ifaces"]}
+    top = ra_top_tokens(plan["top"])
+    for sol in ra.get("solicitations", []):
+        itf = by_peer[sol["dev"]]
+        head = [3] + top + ra_intf_tokens(itf["cfg"]) + ra_env_tokens(plan, itf)
+        ras = [r for r in sol["ras"] if "icmp" in r]
+        if not ras:
+            out.append(" ".join(map(str, head + [0])))
+        for r in ras:
+            icmp = bytes.fromhex(r["icmp"])
+            w = [1] + list(bytes.fromhex(r["src"])) + list(bytes.fromhex(r["dst"])) + [r["hlim"]]
+            w += a16(itf["ll"][0]) + a16(itf["peer_ll"][0]) + bstr(icmp)
+            out.append(" ".join(map(str, head + w)))
+    return out
+
+
+# ---- dhcpflow: one observed step -> the facts the kinds 30 (C13), 40 (C10), 41 (C09) are about
+def flow_row(listing, ip):
+    for r in listing or []:
+        if r[0] == ip:
+            return r
+    return None
+
+
+def flow_facts(server, st):
+    r = st["reply"]
+    f = {"got": 0 if r is None else 1, "echo_ok": 0, "sid_ok": 0, "row_ok": 0}
+    before, after = st["before"], st["after"]
+    if before is None or after is None:
+        f["changed"] = 1                         # the listing could not be read: never counted as "unchanged"
+    elif r is None:
+        f["changed"] = 0 if before == after else 1
+    else:
+        y = r["yiaddr"]
+        f["changed"] = 0 if [x for x in before if x[0] != y] == [x for x in after if x[0] != y] else 1
+    if r is not None:
+        f["echo_ok"] = 1 if (r["op"] == 2 and r["xid"] == st["xid"] and r["htype"] == 1 and r["hlen"] == 6 and r["chaddr"] == st["chaddr"]
+                             and r["giaddr"] == "0.0.0.0" and r["flags"] == st["flags"]) else 0
+        sid = r["options"].get("54")
+        f["sid_ok"] = 1 if (sid is not None and sid == socket.inet_aton(server).hex() and r["src_ip"] == server) else 0
+        row = flow_row(after, r["yiaddr"])
+        cid = ":".join("%02x" % b for b in bytes.fromhex(st["client_id"]))
+        f["row_ok"] = 1 if (row is not None and row[1] == cid) else 0
+        o51 = r["options"].get("51")
+        f["opt51"] = None if o51 is None or len(o51) != 8 else int(o51, 16)
+        f["listed"] = 0 if row is None else max(0, row[3] - row[2])
+        f["is_ack"] = 1 if r["options"].get("53") == "05" else 0
+    return f
+
+
 def cases(pid, obs):
     out = []
+    flow = obs.get("dhcpflow") or {}
+    for st in flow.get("steps", []):
+        f = flow_facts(flow["server"], st)
+        if pid == "C13":
+            out.append("30 %d %d %d %d %d %d %d" % (st["msgtype"], st["sid_class"], f["got"], f["echo_ok"], f["sid_ok"], f["changed"], f["row_ok"]))
+        if pid == "C10" and f["got"]:
+            out.append("40 %d %d %d %d 300 86400" % (f["is_ack"], 0 if f["opt51"] is None else 1, f["opt51"] or 0, f["listed"]))
+    if pid == "C09":
+        by = {st["name"]: st["reply"] for st in flow.get("steps", [])}
+        for k, (a, b) in enumerate((("discover", "request-selecting"), ("request-selecting", "request-renewing"))):
+            if by.get(a) and by.get(b):
+                out.append("41 %d %d %d" % (k, ip4(by[a]["yiaddr"]), ip4(by[b]["yiaddr"])))
+            elif by.get(a) and b in by:
+                out.append("41 %d %d 0" % (k, ip4(by[a]["yiaddr"])))        # no ACK at all: not the offered address either
+    if pid == "C17" and "ra" in obs and "plan" in obs["ra"]:
+        out += ra_cases(obs["ra"])
     if pid == "C12" and "dhcp" in obs:
         # kind 6: flags got yiaddr dst_ip dst_mac*6 req_mac*6
         for o in obs["dhcp"].get("offers", []):
